@@ -1,13 +1,199 @@
-"""C10 - content store (placeholder for shared rule; full rules added below)."""
-from xsvlib.facts import fmt, strip
+"""C10 - content store: byte-exact, content-addressed, present before its frame."""
+from xsvlib.facts import fmt, strip, place_path, walk
 from xsvlib import q
 from . import common as C
 
-NOT_APPLICABLE = None
+EXPLANATION = ("Value provenance of every hash that can be put on a frame: it must be the return value of a finished cacache commit "
+               "(directly, through Store::cas_insert*, or through the shared pipeline-to-CAS helper) or None, so content precedes the frame by "
+               "data dependence on every path and schedule; no body => no hash; every cacache call uses the one CAS directory.")
+NOT_DECIDED = ["byte-exact read-back and hash determinism across entry points and restarts (cacache / ssri)",
+               "equal renderings of equal values on different entry points", "availability of content after a crash"]
+
+COMMITS = ("cacache::put::Writer::commit", "cacache::put::SyncWriter::commit", "cacache::put::write_hash", "cacache::put::write_hash_sync")
+
+
+def producer_bodies(run, fn):
+    """The body that computes the value a call to `fn` yields: the fn itself, or for an async fn its coroutine body."""
+    fb = run.facts.body(fn)
+    if fb is None:
+        return []
+    rets = fb.return_defs()
+    if len(rets) == 1 and strip(rets[0][1])[0] == "agg" and strip(rets[0][1])[1].get("agg") == "coroutine":
+        inner = run.facts.body(strip(rets[0][1])[1]["def"])
+        return [inner] if inner is not None else []
+    return [fb]
+
+
+def classify_hash_origin(run, o, depth=0):
+    """'commit' | 'none' | 'param' | 'bad:<why>' for one origin expression of a hash value."""
+    o = q.peel(o)
+    if o[0] == "agg" and o[1].get("variant") == "None":
+        return ["none"]
+    if o[0] == "call" and o[1].fn in COMMITS:
+        return ["commit:" + o[1].fn.split("::")[-2] + "::" + o[1].fn.split("::")[-1]]
+    if o[0] == "call" and o[1].local and depth < 4:
+        # crate-local producer: summarise its return origins
+        out = []
+        cands = producer_bodies(run, o[1].fn)
+        found = False
+        for cb in cands:
+            for (bb, e, raw) in cb.return_defs():
+                x = strip(e)
+                if x[0] == "call" and x[1].fn == "core::ops::try_trait::FromResidual::from_residual":
+                    continue
+                if x[0] == "agg" and x[1].get("variant") == "Err":
+                    continue
+                found = True
+                run.touch(cb)
+                for oo in q.origins(e):
+                    out += classify_hash_origin(run, oo, depth + 1)
+        if not found:
+            return ["bad:local fn %s has no interpretable return" % o[1].fn]
+        return [("via:%s:" % o[1].fn.split("::")[-1]) + x if not x.startswith("bad") else x for x in out]
+    if o[0] == "arg":
+        return ["param:%s" % (o[2] or o[1])]
+    if o[0] == "call" and o[1].fn.startswith("core::ops::try_trait::FromResidual"):
+        return []
+    return ["bad:" + fmt(o)[:90]]
+
+
+def hash_setter_sites(run):
+    out = []
+    for b in run.facts.all_bodies():
+        if b.def_.startswith("xs::store::FrameBuilder"):
+            continue
+        for c in b.calls():
+            if c.bb in b.live_blocks() and "FrameBuilder" in c.fn and c.fn.split("::")[-1] in ("hash", "maybe_hash"):
+                out.append((b, c))
+    return out
 
 
 def rule_hash_provenance(run):
-    run.ob("pending", True, "<crate>", "hash provenance rule pending")
+    sites = hash_setter_sites(run)
+    run.floor("FrameBuilder::hash / maybe_hash call sites", len(sites), 6)
+    for (b, c) in sites:
+        fn = run.facts.enclosing_fn(b)
+        run.touch(b)
+        labels = []
+        for o in q.origins(c.arg(1)):
+            labels += classify_hash_origin(run, o)
+        bad = [l for l in labels if "bad:" in l or l.startswith("param")]
+        has_commit = any("commit:" in l for l in labels)
+        run.ob("%s|hash-provenance" % fn, not bad and (has_commit or set(labels) == {"none"}), c.sp,
+               "the hash put on the frame in %s originates only from a finished CAS commit or None: %s" % (fn, sorted(set(labels))), reason="hash-without-content")
+    # no direct writes to Frame.hash, no Frame struct literals outside the builder / derives
+    n = 0
+    for b in run.facts.all_bodies():
+        b.defs()
+        for (bi, si, lhs, rv, sp) in b.field_writes:
+            last = lhs["p"][-1] if lhs["p"] else None
+            if isinstance(last, dict) and last.get("n") == "hash" and last.get("adt") == C.FRAME and bi in b.live_blocks():
+                n += 1
+                run.ob("%s|write(Frame.hash)" % run.facts.enclosing_fn(b), False, sp, "Frame.hash is written directly (not through the audited builder sites)", reason="hash-without-content")
+    derived = set()
+    for cr in run.facts.crates:
+        for im in cr.impls:
+            if im["derived"]:
+                derived |= set(im["items"])
+    lits = []
+    for b in run.facts.all_bodies():
+        for bi, si, st in b.stmt_points():
+            if st["k"] == "assign" and "agg" in st["rv"] and st["rv"].get("adt") == C.FRAME and bi in b.live_blocks():
+                encl = run.facts.enclosing_fn(b)
+                ok = b.def_.startswith("xs::store::FrameBuilder") or any(b.def_.startswith(d.rsplit("::", 1)[0]) for d in derived) or "_::" in b.def_ or "<impl" in b.def_
+                lits.append((b.def_, st["sp"], ok))
+    bad = [x for x in lits if not x[2]]
+    run.ob("crate|Frame-literals", not bad, bad[0][1] if bad else "<crate>", "Frame values are only built by the bon builder or the serde derive (%d sites; others: %s)" % (len(lits), [x[0] for x in bad]),
+           reason="hash-without-content")
+    # the Store::cas_insert* helpers really are cacache writes
+    for h in ("xs::store::Store::cas_insert", "xs::store::Store::cas_insert_sync"):
+        labels = []
+        cands = producer_bodies(run, h)
+        for cb in cands:
+            for (bb, e, raw) in cb.return_defs():
+                for oo in q.origins(e):
+                    labels += classify_hash_origin(run, oo)
+        run.ob("%s|is-cas-write" % h, bool(labels) and all(l.startswith("commit:") for l in labels), "<store>", "%s returns the result of a cacache write: %s" % (h, sorted(set(labels))),
+               reason="hash-without-content")
 
 
-RULES = [("R-C10-1", "hash provenance", rule_hash_provenance)]
+def r2(run):
+    hb = None
+    for b in run.facts.bodies_under("xs::api::handle_stream_append"):
+        if b.is_coroutine and q.live_calls(b, "cacache::put::Writer::commit"):
+            hb = b
+    if hb is None:
+        run.missing("xs::api::handle_stream_append|commit", "handle_stream_append does not commit a CAS writer")
+        return
+    run.touch(hb)
+    commits = q.live_calls(hb, "cacache::put::Writer::commit")
+    # comparison counter > 0
+    edges = []
+    counter = None
+    for bb, si in hb.switches():
+        if si["kind"] != "bool":
+            continue
+        cmp_ = q.comparison(si["cond"])
+        if not cmp_:
+            continue
+        rel, l, r = cmp_
+        k = q.const_int(r)
+        if k is None and q.const_int(l) is not None:
+            rel, l, r, k = q.SWAP[rel], r, l, q.const_int(l)
+        if k is None or l[0] not in ("phi", "local"):
+            continue
+        for truth in (True, False):
+            rr = q.rel_on_edge(rel, truth)
+            if (rr == "gt" and k == 0) or (rr == "ge" and k == 1) or (rr == "ne" and k == 0):
+                edges += q.edge_triples(hb, bb, lambda m, t=truth: m is t)
+                counter = l[1]
+    for c in commits:
+        run.ob("xs::api::handle_stream_append|hash-only-with-body", bool(edges) and q.dominated(hb, c.bb, via_edges=edges), c.sp,
+               "the CAS writer is committed (and a hash produced) only on the `bytes_written > 0` edge", reason="empty-body-gets-hash")
+    if counter is not None:
+        incs = []
+        for bi, si, st in hb.stmt_points():
+            if st["k"] == "assign" and st["lhs"]["l"] == counter and not st["lhs"]["p"] and bi in hb.live_blocks():
+                e = hb.rvalue_expr(st["rv"])
+                if any(x[0] == "bin" and x[1].startswith("Add") for x in walk(e)):
+                    incs.append((bi, e, st["sp"]))
+        ok = len(incs) == 1 and any(x[0] == "call" and x[1].fn.endswith("::len") for x in walk(incs[0][1]))
+        run.ob("xs::api::handle_stream_append|counter-is-bytes-written", ok, incs[0][2] if incs else hb.sp, "the counter is the sum of the chunk lengths written", reason="empty-body-gets-hash")
+        writes = [c for c in hb.calls() if c.fn.endswith("write_all") and c.bb in hb.live_blocks()]
+        run.ob("xs::api::handle_stream_append|every-chunk-written", len(writes) >= 1 and all(any(q.reaches(hb, w.bb, i[0]) for i in incs) for w in writes), hb.sp,
+               "each body chunk is written to the CAS writer and then counted", reason="content-not-written")
+    # POST /cas rejects empty bodies before committing
+    cb = None
+    for b in run.facts.bodies_under("xs::api::handle_cas_post"):
+        if b.is_coroutine and q.live_calls(b, "cacache::put::Writer::commit"):
+            cb = b
+    if cb is not None:
+        run.touch(cb)
+        r400 = q.live_calls(cb, "xs::api::response_400")
+        commits = q.live_calls(cb, "cacache::put::Writer::commit")
+        run.ob("xs::api::handle_cas_post|empty-rejected", len(r400) >= 1 and not any(q.reaches(cb, r.bb, c.bb) for r in r400 for c in commits), cb.sp,
+               "POST /cas answers 400 for an empty body without committing", reason="empty-body-gets-hash")
+
+
+def r3(run):
+    n = 0
+    for c in run.facts.all_calls():
+        if c.bb not in c.body.live_blocks() or not c.fn.startswith("cacache::"):
+            continue
+        if c.fn in ("cacache::put::Writer::commit", "cacache::put::SyncWriter::commit", "cacache::put::WriteOpts::new"):
+            continue
+        n += 1
+        strs = []
+        for a in c.arg_exprs():
+            strs += q.const_strs(a)
+        fn = run.facts.enclosing_fn(c.body)
+        run.touch(c.body)
+        run.ob("%s|cas-dir|%s" % (fn, c.fn.split("::")[-1]), "cacache" in strs, c.sp, "%s is given <store path>/\"cacache\" (%s)" % (c.fn, strs), reason="different-cas-directory")
+    run.floor("cacache calls taking a directory", n, 8)
+
+
+RULES = [
+    ("R-C10-1", "a frame's hash originates only from a finished CAS commit (directly or through audited helpers) or None", rule_hash_provenance),
+    ("R-C10-2", "HTTP append: a hash is produced only when bytes were written; POST /cas rejects empty bodies", r2),
+    ("R-C10-3", "every cacache call uses the one CAS directory <store>/cacache", r3),
+]
